@@ -189,8 +189,7 @@ end
    (Lean's `Float` is opaque to proofs) and no `P% of` (computed in double precision, finding F44);
  * no integer value equal to the YR_UNDEFINED sentinel (finding F14);
  * quantifier expressions are defined (finding F42);
- * loop bodies and left operands of `or` have a 0/1 VM value (finding F43);
- * ranges end below INT64_MAX (the iterator's `next++` would wrap). -/
+ * range bounds are 64-bit values and loops have fewer than 2^60 iterations. -/
 
 /-- the value has the shape its static type promises, and is not an integer equal to the sentinel -/
 def ValOk : Ty → Val → Prop
@@ -198,9 +197,6 @@ def ValOk : Ty → Val → Prop
   | .str, v => v = .undef ∨ ∃ s, v = .str s
   | .bool, v => v = .undef ∨ ∃ b, v = .bool b
   | .flt, _ => False
-
-/-- an integer used as a truth value is 0 or 1 -/
-def BoolWord (v : Val) : Prop := ∀ i, v = .int i → i = 0 ∨ i = 1
 
 def SRefOk (c : Ctx) (l : LEnv) : SRef → Prop
   | .id _ => True
@@ -245,7 +241,7 @@ def WF (env : Env) (c : Ctx) : LEnv → Expr → Prop
   | l, .not e => WF env c l e
   | l, .defined e => WF env c l e
   | l, .and a b => WF env c l a ∧ WF env c l b
-  | l, .or a b => WF env c l a ∧ WF env c l b ∧ BoolWord (eval env l a)
+  | l, .or a b => WF env c l a ∧ WF env c l b
   | _, .ruleRef _ => True
   | l, .ofStr q qe _ => (q = .num → WF env c l qe ∧ tyOf c qe = .int ∧ eval env l qe ≠ .undef)
   | l, .ofStrIn q qe _ lo hi =>
@@ -260,24 +256,21 @@ def WF (env : Env) (c : Ctx) : LEnv → Expr → Prop
       (q = .num → WF env c l qe ∧ tyOf c qe = .int ∧ eval env l qe ≠ .undef) ∧
       WF env c l lo ∧ WF env c l hi ∧ tyOf c lo = .int ∧ tyOf c hi = .int ∧ c.vars.length < 4 ∧
       (∀ a b, eval env l lo = .int a → eval env l hi = .int b →
-        C.INT64_MIN ≤ a ∧ b < C.INT64_MAX ∧ b - a < 1152921504606846975) ∧
+        C.INT64_MIN ≤ a ∧ b ≤ C.INT64_MAX ∧ b - a < 1152921504606846975) ∧
       (∀ v, v ∈ intRange (eval env l lo) (eval env l hi) →
-        WF env { c with vars := c.vars ++ [.int] } { l with vars := l.vars ++ [v] } body ∧
-        BoolWord (eval env { l with vars := l.vars ++ [v] } body) ∧ v ≠ .int C.UNDEF)
+        WF env { c with vars := c.vars ++ [.int] } { l with vars := l.vars ++ [v] } body ∧ v ≠ .int C.UNDEF)
   | l, .forEnum q qe items body =>
       (q = .num → WF env c l qe ∧ tyOf c qe = .int ∧ eval env l qe ≠ .undef) ∧
       WFList env c l items ∧ c.vars.length < 4 ∧ items.length < 1152921504606846976 ∧
       (∀ v, v ∈ evalList env l items →
         WF env { c with vars := c.vars ++ [enumTy c items] }
-           { l with vars := l.vars ++ [v] } body ∧
-        BoolWord (eval env { l with vars := l.vars ++ [v] } body))
+           { l with vars := l.vars ++ [v] } body)
   | l, .forOf q qe set body =>
       (q = .num → WF env c l qe ∧ tyOf c qe = .int ∧ eval env l qe ≠ .undef) ∧ c.vars.length < 4 ∧
       set.length < 1152921504606846976 ∧
       (∀ n, n ∈ set →
         WF env { c with vars := c.vars ++ [.bool], ofSlot := some (4 * c.vars.length + 3) }
-           { vars := l.vars ++ [.undef], cur := some n } body ∧
-        BoolWord (eval env { vars := l.vars ++ [.undef], cur := some n } body))
+           { vars := l.vars ++ [.undef], cur := some n } body)
 def WFList (env : Env) (c : Ctx) : LEnv → List Expr → Prop
   | _, [] => True
   | l, e :: es => WF env c l e ∧ tyOf c e ≠ .flt ∧ tyOf c e ≠ .bool ∧ WFList env c l es
